@@ -19,6 +19,7 @@ import (
 type xgen struct {
 	r     *Rng
 	scope bool // generate refs to the scope objects XI (struct-mapped XInner) and A (map-based, recursive)
+	rich  bool // sub-object defaults everywhere: most member properties have defaults, half of the object-typed properties declare a (partial) object default
 }
 
 type xcand struct {
@@ -43,6 +44,14 @@ func (g *xgen) innerObj(ptr bool) *sx.Node {
 	if r.Chance(35) {
 		ps[0].dflt = sp(pick(r, []string{"1", "5", "\"2\""}))
 	}
+	if g.rich {
+		if r.Chance(60) {
+			ps[0].dflt = sp(pick(r, []string{"1", "5", "2"}))
+		}
+		if len(ps) > 1 && r.Chance(60) {
+			ps[1].dflt = sp(pick(r, []string{"\"x\"", "\"y\"", "\"dflt\""}))
+		}
+	}
 	return dXObject("XInner", false, "XInner", ptr, ps...)
 }
 
@@ -54,6 +63,21 @@ func (g *xgen) mapObj() *sx.Node {
 	g.decorate(ps)
 	if g.r.Chance(30) {
 		ps[0].dflt = sp("3")
+	}
+	if g.r.Chance(35) || g.rich && g.r.Chance(50) {
+		// a third level below the plain object: an object-typed property (map-based, or struct-mapped by value)
+		// whose object has defaults of its own
+		var sub *sx.Node
+		if g.r.Bool() {
+			sub = dObject("MI", false, propD{name: "y", t: dInt(nil, nil, nil), dflt: pick(g.r, []*string{sp("5"), sp("5"), nil})},
+				propD{name: "z", t: dString(nil, nil, nil), dflt: pick(g.r, []*string{sp("\"zd\""), nil})})
+		} else {
+			sub = g.innerObj(false)
+		}
+		o := []propD{{name: "o", t: sub}}
+		g.decorate(o)
+		o[0].required, o[0].requiredIf, o[0].requiredIfNot, o[0].conflicts = false, nil, nil, nil
+		ps = append(ps, o[0])
 	}
 	return dObject("MO", false, ps...)
 }
@@ -101,7 +125,7 @@ func (g *xgen) cands(structName string) []xcand {
 	case "XDeep":
 		nested := func(ptr bool) func() *sx.Node {
 			return func() *sx.Node {
-				sub := &xgen{r: r}
+				sub := &xgen{r: r, rich: g.rich}
 				return sub.object("XNested", ptr, "XNested")
 			}
 		}
@@ -130,6 +154,10 @@ func (g *xgen) cands(structName string) []xcand {
 			{"pi32", []func() *sx.Node{intT}},
 			{"in", []func() *sx.Node{innerV, innerV, innerP}},
 		}
+	case "XMid":
+		return []xcand{{"m", []func() *sx.Node{g.mapObj}}, {"in", []func() *sx.Node{innerV}}, {"k", []func() *sx.Node{intT}}}
+	case "XHold":
+		return []xcand{{"o", []func() *sx.Node{func() *sx.Node { return g.oneofX() }}}, {"k", []func() *sx.Node{intT}}}
 	case "XRec":
 		m := func() *sx.Node {
 			if g.scope && r.Chance(50) {
@@ -140,6 +168,28 @@ func (g *xgen) cands(structName string) []xcand {
 		return []xcand{{"m", []func() *sx.Node{m}}, {"k", []func() *sx.Node{intT}}}
 	}
 	panic("no candidates for " + structName)
+}
+
+// names: 1..3 distinct names of the list, in ANY order (rule lists are not sorted by the constructors).
+func (g *xgen) names(others []string) []string {
+	if len(others) == 0 {
+		return nil
+	}
+	n := 1
+	if len(others) > 1 && g.r.Chance(50) {
+		n = 2 + g.r.Intn(2)
+	}
+	if n > len(others) {
+		n = len(others)
+	}
+	pool := append([]string{}, others...)
+	var out []string
+	for i := 0; i < n; i++ {
+		j := g.r.Intn(len(pool))
+		out = append(out, pool[j])
+		pool = append(pool[:j], pool[j+1:]...)
+	}
+	return out
 }
 
 // decorate adds presence rules, defaults and flags to a property list.
@@ -157,19 +207,13 @@ func (g *xgen) decorate(ps []propD) {
 		case 0, 1, 2:
 			p.required = true
 		case 3:
-			if len(others) > 0 {
-				p.requiredIf = []string{pick(r, others)}
-			}
+			p.requiredIf = g.names(others)
 		case 4:
-			if len(others) > 0 {
-				p.requiredIfNot = []string{pick(r, others)}
-			}
+			p.requiredIfNot = g.names(others)
 		case 5:
-			if len(others) > 0 {
-				p.conflicts = []string{pick(r, others)}
-			}
+			p.conflicts = g.names(others)
 		}
-		if r.Chance(20) {
+		if r.Chance(20) || g.rich && (p.t.Head() == "xobject" || p.t.Head() == "ref" || p.t.Head() == "object") && r.Chance(40) {
 			switch p.t.Head() {
 			case "xobject", "ref":
 				p.dflt = sp(pick(r, []string{"{\"a\":5}", "{\"b\":\"dflt\"}", "{}", "{\"a\":7,\"b\":\"x\"}"}))
@@ -203,7 +247,103 @@ func (g *xgen) object(id string, ptr bool, structName string) *sx.Node {
 	return dXObject(id, false, structName, ptr, ps...)
 }
 
-var xTopStructs = []string{"XInner", "XTwo", "XScalars", "XPtrs", "XNested", "XDeep", "XColl", "XEmbedded", "XLoose", "XRec", "XScalars", "XPtrs", "XNested", "XColl"}
+var xTopStructs = []string{"XInner", "XTwo", "XScalars", "XPtrs", "XNested", "XDeep", "XColl", "XEmbedded", "XLoose", "XRec", "XScalars", "XPtrs", "XNested", "XColl", "XMid", "XMid", "XHold"}
+
+// oneofX: a one-of over struct-mapped members.  Inlined: the members are XKindP / XKindV (string keys) or XKindI
+// (integer keys) and declare the discriminator as a property - optional (a nil pointer field / an empty field under
+// treat-empty-as-default leaves it unset in a native value) or required.  Not inlined: any struct members with
+// distinct Go types.
+func (g *xgen) oneofX() *sx.Node {
+	r := g.r
+	field := "kind"
+	if r.Chance(70) { // inlined
+		if r.Chance(30) {
+			kp := propD{name: field, t: pick(r, []*sx.Node{dInt(nil, nil, nil), dEnumInt([]int64{1, 2}, nil)}), required: r.Chance(30)}
+			m := dXObject("mi", false, "XKindI", r.Chance(30), kp, propD{name: "z", t: dInt(nil, nil, nil), required: r.Bool()})
+			return dOneOf(true, field, true, memberD{ikey: pick(r, []int64{1, 2}), t: m})
+		}
+		kt := func() *sx.Node {
+			return pick(r, []*sx.Node{dString(nil, nil, nil), dString(nil, nil, nil), dEnumStr(nil, []string{"a", "b"}), dString(ip(1), ip(4), nil)})
+		}
+		a := dXObject("ma", false, "XKindP", r.Chance(30), propD{name: field, t: kt(), required: r.Chance(30)},
+			propD{name: "x", t: dString(nil, nil, nil), required: r.Bool(), dflt: pick(r, []*string{nil, nil, sp("\"xd\"")})})
+		bk := propD{name: field, t: kt(), required: r.Chance(30), emptyIsDefault: r.Chance(70)}
+		b := dXObject("mb", false, "XKindV", r.Chance(30), bk, propD{name: "y", t: dInt(nil, nil, nil), required: r.Bool()})
+		ms := []memberD{{skey: "a", t: a}, {skey: "b", t: b}}
+		if r.Chance(25) {
+			ms = ms[r.Intn(2):][:1]
+		}
+		return dOneOf(false, field, true, ms...)
+	}
+	intKeys := r.Chance(40)
+	sub := &xgen{r: r, rich: g.rich}
+	ms := []memberD{{ikey: 1, skey: "a", t: sub.innerObj(r.Chance(30))}}
+	if r.Chance(70) {
+		ms = append(ms, memberD{ikey: 2, skey: "b", t: sub.object("mt", r.Chance(30), "XTwo")})
+	}
+	if r.Chance(40) {
+		ms = append(ms, memberD{ikey: 7, skey: "m", t: dObject("mm", false, propD{name: "p", t: dInt(nil, nil, nil)})})
+	}
+	return dOneOf(intKeys, field, false, ms...)
+}
+
+// oneofNative: a native value of one member of a one-of, built by hand: the member's struct filled from its
+// schema, the member's own discriminator field (inlined one-ofs) left UNSET (half of the time), set to the
+// member's key, or (rarely) to another key.
+func (x *xnat) oneofNative(s *sx.Node, depth int) any {
+	r := x.r
+	m := pick(r, s.List[2].List)
+	ms := x.resolve(m.List[1])
+	if ms == nil {
+		return nil
+	}
+	if ms.Head() != "xobject" {
+		mm, _ := x.anyFor(ms, depth).(map[string]any)
+		if mm == nil {
+			mm = map[string]any{}
+		}
+		if s.List[1].Atom == "1" {
+			mm[s.List[3].Str] = m.List[0].Int()
+		} else {
+			mm[s.List[3].Str] = m.List[0].Str
+		}
+		return mm
+	}
+	t := structTypes[ms.List[4].List[1].Str]
+	v := x.valFor(t, ms, depth)
+	if f := v.FieldByName("Kind"); f.IsValid() && s.List[4].Atom == "1" {
+		var key reflect.Value
+		if s.List[1].Atom == "1" {
+			k := m.List[0].Int()
+			if r.Chance(8) {
+				k = 2 - k + 1
+			}
+			key = reflect.ValueOf(k)
+		} else {
+			k := m.List[0].Str
+			if r.Chance(8) {
+				k = pick(r, []string{"a", "b"})
+			}
+			key = reflect.ValueOf(k)
+		}
+		switch {
+		case r.Chance(50):
+			f.Set(reflect.Zero(f.Type()))
+		case f.Kind() == reflect.Pointer:
+			p := reflect.New(f.Type().Elem())
+			p.Elem().Set(key)
+			f.Set(p)
+		default:
+			f.Set(key)
+		}
+	}
+	if ms.List[4].List[2].Atom == "1" {
+		p := reflect.New(t)
+		p.Elem().Set(v)
+		return p.Interface()
+	}
+	return v.Interface()
+}
 
 // schema generates a top-level schema: an xobject, or a scope whose root is one.
 func (g *xgen) schema() *sx.Node {
@@ -352,6 +492,8 @@ func (x *xnat) anyFor(s *sx.Node, depth int) any {
 			}
 		}
 		return out
+	case "oneof":
+		return x.oneofNative(s, depth-1)
 	case "xobject":
 		t := structTypes[s.List[4].List[1].Str]
 		v := x.valFor(t, s, depth-1)
@@ -621,6 +763,32 @@ func xFixed() []struct {
 	embp := dXObject("Root", false, "XEmbPtr", false, propD{name: "a", t: dInt(nil, nil, nil)}, propD{name: "c", t: dInt(nil, nil, nil)})
 	out = append(out, cfg{embp, []*sx.Node{op("u", m(vS("c"), vI("i64", 2))), op("u", m(vS("a"), vI("i64", 1))), op("v", nat(XEmbPtr{C: 1})), op("s", nat(XEmbPtr{C: 1})),
 		op("v", nat(XEmbPtr{XInner: &XInner{A: 1}, C: 1})), op("s", nat(XEmbPtr{XInner: &XInner{A: 1}, C: 1})), op("v", nat(&XEmbPtr{C: 1}))}})
+	// an INLINED one-of whose struct-mapped members declare the discriminator as an optional property: native values
+	// that leave it unset (nil pointer / empty under treat-empty-as-default), set it, or hold another member's key
+	ka, kb := "a", "b"
+	oo := dOneOf(false, "kind", true,
+		memberD{skey: "a", t: dXObject("ma", false, "XKindP", false, propD{name: "kind", t: dString(nil, nil, nil)}, propD{name: "x", t: dString(nil, nil, nil), required: true})},
+		memberD{skey: "b", t: dXObject("mb", false, "XKindV", false, propD{name: "kind", t: dString(nil, nil, nil), emptyIsDefault: true}, propD{name: "y", t: dInt(nil, nil, nil), required: true})})
+	var ooOps []*sx.Node
+	for _, v := range []any{XKindP{Kind: &ka, X: "v"}, XKindP{X: "v"}, XKindV{Kind: "b", Y: 3}, XKindV{Y: 3}, XKindP{Kind: &kb, X: "v"}, &XKindP{X: "v"}, XKindV{}} {
+		ooOps = append(ooOps, op("v", nat(v)), op("s", nat(v)), op("sr", nat(v)))
+	}
+	ooOps = append(ooOps, op("rt", m(vS("kind"), vS("a"), vS("x"), vS("q"))), op("rt", m(vS("kind"), vS("b"), vS("y"), vI("i64", 2))), op("rt", m(vS("x"), vS("q"))), op("x", m(vS("kind"), vS("b"))))
+	out = append(out, cfg{oo, ooOps})
+	i2 := int64(2)
+	oi := dXObject("Root", false, "XHold", false, propD{name: "k", t: dInt(nil, nil, nil)},
+		propD{name: "o", t: dOneOf(true, "kind", true, memberD{ikey: 2, t: dXObject("mi", false, "XKindI", false, propD{name: "kind", t: dInt(nil, nil, nil)}, propD{name: "z", t: dInt(nil, nil, nil)})})})
+	out = append(out, cfg{oi, []*sx.Node{op("sr", nat(XHold{O: XKindI{Z: 1}})), op("sr", nat(XHold{O: XKindI{Kind: &i2, Z: 1}, K: 1})), op("s", nat(XHold{})), op("v", nat(XHold{O: XKindI{}})),
+		op("rt", m(vS("o"), m(vS("kind"), vI("i64", 2), vS("z"), vI("i64", 5))))}})
+	// three levels, a PLAIN object in the middle: struct-mapped parent -> map-based m (no declared default) -> object o with
+	// defaults; and the same with a declared partial default on m; histories that first omit m, then supply it without o
+	mi := dObject("MI", false, propD{name: "y", t: dInt(nil, nil, nil), dflt: sp("5")}, propD{name: "z", t: dString(nil, nil, nil)})
+	for _, md := range []*string{nil, sp("{\"p\":1}"), sp("{\"o\":{\"z\":\"q\"}}")} {
+		mid := dXObject("Root", false, "XMid", false,
+			propD{name: "m", dflt: md, t: dObject("MO", false, propD{name: "p", t: dInt(nil, nil, nil)}, propD{name: "o", t: mi})},
+			propD{name: "in", t: dXObject("XInner", false, "XInner", false, propD{name: "a", t: dInt(nil, nil, nil), dflt: sp("1")}, propD{name: "b", t: dString(nil, nil, nil)})})
+		out = append(out, cfg{mid, []*sx.Node{op("rt", m()), op("rt", m(vS("m"), m())), op("x", m(vS("m"), m(vS("p"), vI("i64", 2)))), op("rt", m(vS("m"), m(vS("o"), m()))), op("rt", m()), op("rt", m(vS("in"), m(vS("b"), vS("q"))))}})
+	}
 	// pointer fields: optional properties are representable
 	pt := dXObject("Root", false, "XPtrs", true,
 		propD{name: "i", t: dInt(nil, nil, nil), conflicts: []string{"s"}}, propD{name: "s", t: dString(nil, nil, nil)}, propD{name: "b", t: dBool(), requiredIf: []string{"i"}})
@@ -691,6 +859,9 @@ func init() {
 					if j == 0 {
 						ops = append(ops, op("c", nv), op("u", nv))
 					}
+					if j < 2 {
+						ops = append(ops, op("sr", nv))
+					}
 				}
 				for _, a := range xn.arbitrary(s) {
 					ops = append(ops, op("v", a), op("s", a))
@@ -699,6 +870,42 @@ func init() {
 					}
 					if r.Chance(20) {
 						ops = append(ops, op("u", a))
+					}
+				}
+				xemit(s, ops)
+			}
+			// one-ofs over struct-mapped members at the top: raw inputs through the map-based twin, and HAND-BUILT
+			// native member values (the member's own discriminator field unset / set / wrong) through Validate,
+			// Serialize and Serialize-then-Unserialize
+			no := 70
+			if tier == "thorough" {
+				no = 1200
+			}
+			for i := 0; i < no; i++ {
+				g := &xgen{r: r, rich: r.Chance(30)}
+				s := g.oneofX()
+				annotateX(s)
+				er := eraseX(s)
+				var ops []*sx.Node
+				for j := 0; j < 3; j++ {
+					v := rawFor(r, er, scopeCtx{}, 3)
+					ops = append(ops, op("rt", v), op("x", v))
+					if r.Chance(50) {
+						mv := mutate(r, v)
+						ops = append(ops, op("rt", mv), op("x", mv), op("c", mv))
+					}
+				}
+				xn := &xnat{r: r, sc: scopeCtx{}}
+				for j := 0; j < 6; j++ {
+					nv := valSx(xn.oneofNative(s, 2))
+					ops = append(ops, op("v", nv), op("s", nv), op("sr", nv))
+					if j == 0 {
+						ops = append(ops, op("c", nv))
+					}
+				}
+				for _, a := range []any{XInner{A: 1}, &XKindP{X: "q"}, XKindV{}, (*XKindP)(nil), map[string]any{"kind": "a"}, map[string]any{}, nil, int64(3)} {
+					if r.Chance(40) {
+						ops = append(ops, op("v", valSx(a)), op("s", valSx(a)))
 					}
 				}
 				xemit(s, ops)
